@@ -82,7 +82,10 @@ fn compare_outcomes(backend: &str, outs: Vec<GenOutcome>, ctx: &str) -> CaseResu
 }
 
 fn prop(c: &WorldCase, obs: &mut Obs) -> CaseResult {
-    let p = prepare(c);
+    let Some(p) = prepare(c) else {
+        obs.label("discarded-generator-invalid-world");
+        return Ok(());
+    };
     let outs = run_threads(p.backend, &p.args, &p.resolve, p.world);
     obs.label(p.backend.to_string());
     let r = &p.resolve;
@@ -270,7 +273,10 @@ pub fn run(check: &mut Check) {
             let c = WorldCase { tape: tape.clone(), backend: bi as u8, variant: i as u8 };
             runs += 1;
             check.case("process-worlds", &c, |c, obs| {
-                let p = prepare(c);
+                let Some(p) = prepare(c) else {
+                    obs.label("discarded-generator-invalid-world");
+                    return Ok(());
+                };
                 let tmp = tempfile::tempdir().map_err(|e| Failure::new("io", e.to_string()))?;
                 let wit = tmp.path().join("gen.wit");
                 std::fs::write(&wit, &p.text).map_err(|e| Failure::new("io", e.to_string()))?;
